@@ -509,6 +509,51 @@ Section IRS.
     { unfold step_state. destruct (irs_step c s k) as [[s' []]|]; [destruct Hs as [a' [_ H]]; eauto|eauto]. }
     apply (IH _ a' HR'). eapply irs_link_step; eauto.
   Qed.
+  (* ---- the limits of the registry, exactly: MAX_COUNTRY_ENTRIES, MAX_METADATA_ENTRIES,
+     MAX_METADATA_STRING_LEN (statements about the transcribed guards; no reachability needed) ---- *)
+  Theorem irs_cd_valid_iff d :
+    cd_valid c d = true <->
+    match cd_meta d with
+    | None => True
+    | Some m => (N.of_nat (length m) <= irs_max_meta c)%N /\ (forall kv, In kv m -> (str_len (snd kv) <= irs_max_meta_len c)%N)
+    end.
+  Proof.
+    unfold cd_valid. destruct (cd_meta d) as [m|]; [|tauto].
+    rewrite andb_true_iff, N.leb_le, forallb_forall. split; intros [H1 H2]; split; auto; intros kv Hk; apply N.leb_le; auto.
+  Qed.
+  Theorem irs_add_identity_iff s acct ident ty cds :
+    is_ok (irs_step c s (IrAdd acct ident ty cds)) = true <->
+    irs_recovered_to s acct = None /\ cds <> [] /\ length cds <= irs_max_countries c
+    /\ (forall d, In d cds -> cd_valid c d = true) /\ irs_stored_identity s acct = Fail.
+  Proof.
+    cbn [irs_step]. unfold irs_add_identity, irs_stored_identity.
+    destruct (irs_recovered_to s acct); [split; [discriminate|intros [H _]; discriminate]|].
+    destruct cds as [|d0 cds0]; [split; [discriminate|intros [_ [H _]]; congruence]|]. set (cds := d0 :: cds0).
+    destruct (irs_max_countries c <? length cds) eqn:E1.
+    { apply Nat.ltb_lt in E1. split; [discriminate|]. intros (_ & _ & H & _). lia. }
+    apply Nat.ltb_ge in E1. destruct (forallb (cd_valid c) cds) eqn:E2; cbn [negb].
+    - rewrite forallb_forall in E2. destruct (id_get (irs_ident s) acct); cbn [bind is_ok of_option].
+      + split; [discriminate|]. intros (_ & _ & _ & _ & H). discriminate.
+      + split; auto. intros _. repeat split; auto. discriminate.
+    - split; [discriminate|]. intros (_ & _ & _ & H & _).
+      assert (forallb (cd_valid c) cds = true) by (apply forallb_forall; auto). congruence.
+  Qed.
+  Theorem irs_add_countries_iff s acct cds :
+    is_ok (irs_step c s (IrAddCountries acct cds)) = true <->
+    cds <> [] /\ (forall d, In d cds -> cd_valid c d = true)
+    /\ exists p, irs_get_profile s acct = Ok p /\ length (snd p) + length cds <= irs_max_countries c.
+  Proof.
+    cbn [irs_step]. unfold irs_add_countries, irs_get_profile.
+    destruct cds as [|d0 cds0]; [split; [discriminate|intros [H _]; congruence]|]. set (cds := d0 :: cds0).
+    destruct (forallb (cd_valid c) cds) eqn:E2; cbn [negb].
+    - rewrite forallb_forall in E2. destruct (pf_get (irs_profile s) acct) as [[ty old]|]; cbn [of_option].
+      + rewrite app_length. destruct (irs_max_countries c <? length old + length cds) eqn:E1; cbn [bind is_ok].
+        * apply Nat.ltb_lt in E1. split; [discriminate|]. intros (_ & _ & [p [Hp Hl]]). inversion Hp. subst p. cbn [snd] in Hl. lia.
+        * apply Nat.ltb_ge in E1. split; auto. intros _. split; [discriminate|]. split; auto. exists (ty, old). split; auto.
+      + split; [discriminate|]. intros (_ & _ & [p [Hp _]]). discriminate.
+    - split; [discriminate|]. intros (_ & H & _).
+      assert (forallb (cd_valid c) cds = true) by (apply forallb_forall; auto). congruence.
+  Qed.
 End IRS.
 
 (* ========================================================================= *)
@@ -668,7 +713,7 @@ Section SAProps.
             (forall x, In x (r_policies r1) <-> In x (r_policies r2)) -> r1 = r2).
   Proof.
     intros Hreach. cbn zeta. destruct (sa_reachable_rel Hreach) as [a HR]. exists (rRules a).
-    pose proof HR as (HM & HS & HP & HI & HC & HN & HU & HB & HF & HW & HD & HV).
+    pose proof HR as (HM & HS & HP & HI & HC & HN & HU & HB & HF & HW & HD & HV & HA).
     split; auto. split; [intros id; apply (sa_get_rule_rel id HR)|]. split; [apply (count0_rel HR)|].
     split; [|split; [auto|split]].
     - intros cx. unfold sa_get_rules. rewrite HI. apply (@mapM_get_rules c _ a); auto.
@@ -745,7 +790,7 @@ Section SAProps.
             same_fp (r_ctx r) (r_signers r ++ [x]) (r_policies r) r2 = false).
   Proof.
     intros Hreach. cbn zeta. destruct (sa_reachable_rel Hreach) as [a HR].
-    pose proof HR as (_ & _ & HP & _ & _ & _ & _ & _ & _ & HW & _ & HV).
+    pose proof HR as (_ & _ & HP & _ & _ & _ & _ & _ & _ & HW & _ & HV & _).
     cbn [sa_step]. unfold sa_add_signer. rewrite (sa_get_rule_rel id HR).
     assert (Hcoll : forall r sg po, existsb (same_fp (r_ctx r) sg po) (rRules a) = false <->
                       (forall id2 r2, sa_get_rule (fst sl) id2 = Ok r2 -> same_fp (r_ctx r) sg po r2 = false)).
@@ -789,7 +834,7 @@ Section SAProps.
             same_fp (r_ctx r) (r_signers r) (r_policies r ++ [p]) r2 = false).
   Proof.
     intros Hreach. cbn zeta. destruct (sa_reachable_rel Hreach) as [a HR].
-    pose proof HR as (_ & _ & HP & _ & _ & _ & HU & _ & _ & HW & _ & HV).
+    pose proof HR as (_ & _ & HP & _ & _ & _ & HU & _ & _ & HW & _ & HV & _).
     cbn [sa_step]. unfold sa_add_policy. rewrite (sa_get_rule_rel id HR).
     assert (Hcoll : forall r sg po, existsb (same_fp (r_ctx r) sg po) (rRules a) = false <->
                       (forall id2 r2, sa_get_rule (fst sl) id2 = Ok r2 -> same_fp (r_ctx r) sg po r2 = false)).
@@ -821,5 +866,182 @@ Section SAProps.
     - split; [discriminate|]. intros [r' [Hr [_ [_ [_ Hc]]]]]. inversion Hr. subst r'.
       apply (Hcoll r) in Hc. congruence.
     - split; [|reflexivity]. intros _. exists r. split; auto. split; auto. split; auto. split; auto. apply (Hcoll r). auto.
+  Qed.
+
+  (* ---- the remaining smart-account calls: accepted IFF ... (duplicates / absent refused, limits exact) ---- *)
+  Lemma sa_collision_iff (sl : sa_state * N) a : sa_rel c (fst sl) a -> forall cx sg po,
+    existsb (same_fp cx sg po) (rRules a) = false <->
+    (forall id2 r2, sa_get_rule (fst sl) id2 = Ok r2 -> same_fp cx sg po r2 = false).
+  Proof.
+    intros HR cx sg po. pose proof HR as (_ & _ & _ & _ & _ & _ & HU & _). split.
+    - intros H id2 r2 Hg. rewrite (sa_get_rule_rel id2 HR) in Hg.
+      destruct (find_rule id2 (rRules a)) as [r2'|] eqn:E2; [|discriminate]. inversion Hg. subst r2'.
+      destruct (find_rule_id _ _ E2) as [_ Hin2]. destruct (same_fp cx sg po r2) eqn:Es; auto.
+      assert (existsb (same_fp cx sg po) (rRules a) = true) by (apply existsb_exists; eauto). congruence.
+    - intros H. destruct (existsb (same_fp cx sg po) (rRules a)) eqn:E; auto.
+      apply existsb_exists in E. destruct E as [r2 [Hin2 Es]].
+      rewrite (H (r_id r2) r2) in Es; [discriminate|]. rewrite (sa_get_rule_rel (r_id r2) HR).
+      rewrite (@find_rule_in (r_id r2) (rRules a) r2 HU Hin2 eq_refl). reflexivity.
+  Qed.
+
+  (* add_context_rule: MAX_CONTEXT_RULES exactly at the limit, duplicate signers refused, limits of the
+     lists, past valid_until refused, duplicate fingerprint refused, every policy must install *)
+  Theorem sa_add_rule_iff sl now cx name until sg po : sa_reachable sl ->
+    let s := fst sl in
+    is_ok (sa_step (sa_with_now c now) s (SaAddRule cx name until sg po)) = true <->
+    sa_count0 s < sa_max_rules c
+    /\ NoDup sg /\ NoDup (map fst po)
+    /\ until_ok (sa_with_now c now) until = true
+    /\ sa_validate c sg (map fst po) = true
+    /\ (forall id2 r2, sa_get_rule s id2 = Ok r2 -> same_fp cx sg (map fst po) r2 = false)
+    /\ forallb snd po = true
+    /\ (match sa_next s with Some n => n | None => 0 end < 4294967295)%N.
+  Proof.
+    intros Hreach. cbn zeta. destruct (sa_reachable_rel Hreach) as [a HR].
+    pose proof (sa_collision_iff sl HR cx sg (map fst po)) as Hcoll.
+    cbn [sa_step]. unfold sa_add_rule. cbn [sa_max_rules sa_with_now].
+    change (sa_validate (sa_with_now c now)) with (sa_validate c).
+    destruct (sa_max_rules c <=? sa_count0 (fst sl)) eqn:E1.
+    { apply Nat.leb_le in E1. split; [discriminate|]. intros [H _]. lia. }
+    apply Nat.leb_gt in E1.
+    destruct (nodupb signer_eqb sg) eqn:E2; cbn [negb].
+    2:{ split; [discriminate|]. intros (_ & H & _). apply (nodupb_NoDup signer_eqb signer_eqb_spec) in H. congruence. }
+    destruct (until_ok (sa_with_now c now) until) eqn:E3; cbn [negb].
+    2:{ split; [discriminate|]. intros (_ & _ & _ & H & _). discriminate. }
+    destruct (sa_validate c sg (map fst po)) eqn:E4; cbn [negb].
+    2:{ split; [discriminate|]. intros (_ & _ & _ & _ & H & _). discriminate. }
+    unfold sa_set_fp, sa_fp. rewrite E2. cbn [negb].
+    destruct (nodupb N.eqb (map fst po)) eqn:E5; cbn [negb bind].
+    2:{ split; [discriminate|]. intros (_ & _ & H & _). apply (nodupb_NoDup N.eqb N.eqb_eq) in H. congruence. }
+    rewrite (existsb_fps (cx, sg, map fst po) HR).
+    change (existsb (fun r => fp_same (cx, sg, map fst po) (fp_of r)) (rRules a)) with (existsb (same_fp cx sg (map fst po)) (rRules a)).
+    destruct (existsb (same_fp cx sg (map fst po)) (rRules a)) eqn:E6.
+    { split; [discriminate|]. intros (_ & _ & _ & _ & _ & H & _). apply Hcoll in H. congruence. }
+    cbn [bind]. destruct (forallb snd po) eqn:E7; cbn [negb].
+    2:{ split; [discriminate|]. intros (_ & _ & _ & _ & _ & _ & H & _). discriminate. }
+    destruct (in_u32 (Z.of_N match sa_next (fst sl) with Some n => n | None => 0%N end + 1)) eqn:E8; cbn [negb is_ok].
+    - unfold in_u32 in E8. rewrite maxu32_val in E8. apply andb_prop in E8. destruct E8 as [_ E8]. apply Z.leb_le in E8.
+      split; auto. intros _. split; auto. split; [apply (nodupb_NoDup signer_eqb signer_eqb_spec); auto|].
+      split; [apply (nodupb_NoDup N.eqb N.eqb_eq); auto|]. split; auto. split; auto. split; [apply Hcoll; auto|]. split; auto. lia.
+    - unfold in_u32 in E8. rewrite maxu32_val in E8. apply andb_false_iff in E8.
+      split; [discriminate|]. intros (_ & _ & _ & _ & _ & _ & _ & H).
+      destruct E8 as [E8|E8]; apply Z.leb_gt in E8; lia.
+  Qed.
+
+  Theorem sa_remove_rule_iff sl now id : sa_reachable sl ->
+    is_ok (sa_step (sa_with_now c now) (fst sl) (SaRemoveRule id)) = is_ok (sa_get_rule (fst sl) id).
+  Proof.
+    intros Hreach. destruct (sa_reachable_rel Hreach) as [a HR].
+    pose proof (sa_remove_rule_sim id HR) as [a' [H _]]. cbn [sa_step sa_spec] in *.
+    rewrite (sa_get_rule_rel id HR) in *.
+    destruct (sa_remove_rule (fst sl) id) as [s'|]; cbn [bind is_ok];
+      destruct (find_rule id (rRules a)); cbn [of_option is_ok]; auto; discriminate.
+  Qed.
+  Theorem sa_update_name_iff sl now id name : sa_reachable sl ->
+    is_ok (sa_step (sa_with_now c now) (fst sl) (SaUpdateName id name)) = is_ok (sa_get_rule (fst sl) id).
+  Proof.
+    intros _. cbn [sa_step]. unfold sa_update_name. destruct (sa_get_rule (fst sl) id); reflexivity.
+  Qed.
+  Theorem sa_update_until_iff sl now id until : sa_reachable sl ->
+    is_ok (sa_step (sa_with_now c now) (fst sl) (SaUpdateUntil id until)) =
+    is_ok (sa_get_rule (fst sl) id) && until_ok (sa_with_now c now) until.
+  Proof.
+    intros _. cbn [sa_step]. unfold sa_update_until. destruct (sa_get_rule (fst sl) id); cbn [bind is_ok andb]; auto.
+    destruct (until_ok (sa_with_now c now) until); reflexivity.
+  Qed.
+
+  Lemma validate_shrink_signers r x : sa_validate c (r_signers r) (r_policies r) = true ->
+    sa_validate c (rem signer_eqb x (r_signers r)) (r_policies r) =
+    negb (match rem signer_eqb x (r_signers r), r_policies r with [], [] => true | _, _ => false end).
+  Proof.
+    unfold sa_validate. rewrite !andb_true_iff. intros [[H1 H2] H3]. rewrite H2.
+    replace (length (rem signer_eqb x (r_signers r)) <=? sa_max_signers c) with true; [reflexivity|].
+    symmetry. apply Nat.leb_le. apply Nat.leb_le in H1.
+    assert (length (rem signer_eqb x (r_signers r)) <= length (r_signers r)); [|lia].
+    clear. induction (r_signers r) as [|y l IH]; cbn; auto. destruct (signer_eqb x y); cbn; lia.
+  Qed.
+  Lemma validate_shrink_policies r p : sa_validate c (r_signers r) (r_policies r) = true ->
+    sa_validate c (r_signers r) (rem N.eqb p (r_policies r)) =
+    negb (match r_signers r, rem N.eqb p (r_policies r) with [], [] => true | _, _ => false end).
+  Proof.
+    unfold sa_validate. rewrite !andb_true_iff. intros [[H1 H2] H3]. rewrite H1.
+    replace (length (rem N.eqb p (r_policies r)) <=? sa_max_policies c) with true; [reflexivity|].
+    symmetry. apply Nat.leb_le. apply Nat.leb_le in H2.
+    assert (length (rem N.eqb p (r_policies r)) <= length (r_policies r)); [|lia].
+    clear. induction (r_policies r) as [|y l IH]; cbn; auto. destruct (N.eqb p y); cbn; lia.
+  Qed.
+
+  (* remove_signer: accepted IFF the rule exists, holds the signer (an absent one is refused), is not
+     left without any signer and policy, and no live rule already has the resulting fingerprint *)
+  Theorem sa_remove_signer_iff sl now id x : sa_reachable sl ->
+    let s := fst sl in
+    is_ok (sa_step (sa_with_now c now) s (SaRemoveSigner id x)) = true <->
+    exists r, sa_get_rule s id = Ok r /\ In x (r_signers r)
+      /\ (rem signer_eqb x (r_signers r) <> [] \/ r_policies r <> [])
+      /\ (forall id2 r2, sa_get_rule s id2 = Ok r2 ->
+            same_fp (r_ctx r) (rem signer_eqb x (r_signers r)) (r_policies r) r2 = false).
+  Proof.
+    intros Hreach. cbn zeta. destruct (sa_reachable_rel Hreach) as [a HR].
+    pose proof HR as (_ & _ & _ & _ & _ & _ & _ & _ & _ & HW & _ & HV & _).
+    cbn [sa_step]. unfold sa_remove_signer. rewrite (sa_get_rule_rel id HR).
+    destruct (find_rule id (rRules a)) as [r|] eqn:Ef; cbn [of_option bind].
+    2:{ split; [discriminate|]. intros [r [H _]]. discriminate. }
+    destruct (find_rule_id _ _ Ef) as [_ Hin]. destruct (HW r Hin) as [W1 W2].
+    pose proof (sa_collision_iff sl HR (r_ctx r) (rem signer_eqb x (r_signers r)) (r_policies r)) as Hcoll.
+    rewrite (rindex_of_NoDup signer_eqb signer_eqb_spec x W1).
+    destruct (index_of signer_eqb x (r_signers r)) as [p|] eqn:Ep.
+    2:{ apply (index_of_None signer_eqb signer_eqb_spec) in Ep. split; [discriminate|].
+        intros [r' [Hr [Hi _]]]. inversion Hr. subst r'. contradiction. }
+    assert (Hx : In x (r_signers r)) by (destruct (index_of_Some signer_eqb signer_eqb_spec _ _ Ep) as [H _]; eapply nth_error_In; eauto).
+    rewrite (remove_at_index_of signer_eqb signer_eqb_spec x W1 Ep).
+    change (sa_validate (sa_with_now c now)) with (sa_validate c).
+    rewrite (validate_shrink_signers r x (HV r Hin)).
+    assert (Hne : (match rem signer_eqb x (r_signers r), r_policies r with [], [] => true | _, _ => false end) = false
+                  <-> (rem signer_eqb x (r_signers r) <> [] \/ r_policies r <> [])).
+    { destruct (rem signer_eqb x (r_signers r)), (r_policies r); split; intros H; try reflexivity; try discriminate;
+        try (left; discriminate); try (right; discriminate). destruct H; congruence. }
+    destruct (match rem signer_eqb x (r_signers r), r_policies r with [], [] => true | _, _ => false end) eqn:Em; cbn [negb].
+    { split; [discriminate|]. intros [r' [Hr [_ [H _]]]]. inversion Hr. subst r'. apply Hne in H. discriminate. }
+    rewrite (@sp_fps c _ _ (fst sl) a r (rem signer_eqb x (r_signers r)) (r_policies r) HR Hin
+               (rem_NoDup signer_eqb signer_eqb_spec x W1) W2).
+    destruct (existsb (same_fp (r_ctx r) (rem signer_eqb x (r_signers r)) (r_policies r)) (rRules a)) eqn:Ex; cbn [is_ok].
+    - split; [discriminate|]. intros [r' [Hr [_ [_ Hc]]]]. inversion Hr. subst r'. apply Hcoll in Hc. congruence.
+    - split; [|reflexivity]. intros _. exists r. split; auto. split; auto. split; [apply Hne; auto|apply Hcoll; auto].
+  Qed.
+
+  Theorem sa_remove_policy_iff sl now id p : sa_reachable sl ->
+    let s := fst sl in
+    is_ok (sa_step (sa_with_now c now) s (SaRemovePolicy id p)) = true <->
+    exists r, sa_get_rule s id = Ok r /\ In p (r_policies r)
+      /\ (r_signers r <> [] \/ rem N.eqb p (r_policies r) <> [])
+      /\ (forall id2 r2, sa_get_rule s id2 = Ok r2 ->
+            same_fp (r_ctx r) (r_signers r) (rem N.eqb p (r_policies r)) r2 = false).
+  Proof.
+    intros Hreach. cbn zeta. destruct (sa_reachable_rel Hreach) as [a HR].
+    pose proof HR as (_ & _ & _ & _ & _ & _ & _ & _ & _ & HW & _ & HV & _).
+    cbn [sa_step]. unfold sa_remove_policy. rewrite (sa_get_rule_rel id HR).
+    destruct (find_rule id (rRules a)) as [r|] eqn:Ef; cbn [of_option bind].
+    2:{ split; [discriminate|]. intros [r [H _]]. discriminate. }
+    destruct (find_rule_id _ _ Ef) as [_ Hin]. destruct (HW r Hin) as [W1 W2].
+    pose proof (sa_collision_iff sl HR (r_ctx r) (r_signers r) (rem N.eqb p (r_policies r))) as Hcoll.
+    rewrite (rindex_of_NoDup N.eqb N.eqb_eq p W2).
+    destruct (index_of N.eqb p (r_policies r)) as [i0|] eqn:Ep.
+    2:{ apply (index_of_None N.eqb N.eqb_eq) in Ep. split; [discriminate|].
+        intros [r' [Hr [Hi _]]]. inversion Hr. subst r'. contradiction. }
+    assert (Hx : In p (r_policies r)) by (destruct (index_of_Some N.eqb N.eqb_eq _ _ Ep) as [H _]; eapply nth_error_In; eauto).
+    rewrite (remove_at_index_of N.eqb N.eqb_eq p W2 Ep).
+    change (sa_validate (sa_with_now c now)) with (sa_validate c).
+    rewrite (validate_shrink_policies r p (HV r Hin)).
+    assert (Hne : (match r_signers r, rem N.eqb p (r_policies r) with [], [] => true | _, _ => false end) = false
+                  <-> (r_signers r <> [] \/ rem N.eqb p (r_policies r) <> [])).
+    { destruct (r_signers r), (rem N.eqb p (r_policies r)); split; intros H; try reflexivity; try discriminate;
+        try (left; discriminate); try (right; discriminate). destruct H; congruence. }
+    destruct (match r_signers r, rem N.eqb p (r_policies r) with [], [] => true | _, _ => false end) eqn:Em; cbn [negb].
+    { split; [discriminate|]. intros [r' [Hr [_ [H _]]]]. inversion Hr. subst r'. apply Hne in H. discriminate. }
+    rewrite (@sp_fps c _ _ (fst sl) a r (r_signers r) (rem N.eqb p (r_policies r)) HR Hin W1
+               (rem_NoDup N.eqb N.eqb_eq p W2)).
+    destruct (existsb (same_fp (r_ctx r) (r_signers r) (rem N.eqb p (r_policies r))) (rRules a)) eqn:Ex; cbn [is_ok].
+    - split; [discriminate|]. intros [r' [Hr [_ [_ Hc]]]]. inversion Hr. subst r'. apply Hcoll in Hc. congruence.
+    - split; [|reflexivity]. intros _. exists r. split; auto. split; auto. split; [apply Hne; auto|apply Hcoll; auto].
   Qed.
 End SAProps.
